@@ -78,8 +78,22 @@ def generate(r, tier):
             scn["poke_after_history"] = pk
     if r.random() < 0.4:
         scn["parent_script"] = [gen.gen_ticket(r, "p.c%d" % j, units, profile) for j in range(r.randint(1, 2))]
+    ameths = [u for u in units if u["obj"] is not None and u["async"]]
+    if engine == "loop" and ameths and "body_host" not in scn and r.random() < 0.12:
+        # ... or by the body of an async METHOD of a shared object (finding D21: the copy then holds the object's mark for good)
+        u = hot if (hot["obj"] is not None and hot["async"]) else r.choice(ameths)
+        host = gen.gen_ticket(r, "p.h", [u], dict(profile, p_falsy=0.0, p_fault=0.0, p_nested=0.0), u=u)
+        host.setdefault("body", {}).setdefault("nested", []).append({"hook": "spawn_children"})
+        scn["body_host"] = host
+        for a in actors:
+            a["ctx"] = "copied_in_body"  # (all of them: the body below changes the object's state, which must precede every child's calls)
+        scn.pop("parent_script", None)
+        if u["invs"] and r.random() < 0.8:
+            # the method leaves the object in a state that violates one of its invariants (reported when the method returns);
+            # the children start after that
+            host["body"]["mutates"] = {r.choice(u["invs"]): False}
     afuncs = [u for u in units if u["obj"] is None and u["async"]]
-    if engine == "loop" and afuncs and r.random() < 0.3:
+    if engine == "loop" and afuncs and "body_host" not in scn and r.random() < 0.3:
         # some children are created by the BODY of a checked function of the parent (fire-and-forget / fan-out from a handler):
         # their contexts are copies taken while that call is in flight - the function's own contracts are not being evaluated then
         u = hot if (hot["obj"] is None and hot["async"]) else r.choice(afuncs)
@@ -257,6 +271,11 @@ def execute(scn):
                 a[0] if a else "absent",
                 b[0] if b else "absent",
             )
+            bh = scn.get("body_host") or {}
+            if actor_ctx.get(who) == "copied_in_body" and bh.get("obj"):
+                # finding D21: the child's context was copied inside the body of a public method of a shared object and holds that
+                # object's mark for good; its calls on the object go unchecked - and whatever those calls then do differs as well
+                cls += ":context-copied-inside-a-method-body-of-the-same-object"
             violations.append({"rule": "C12.R1", "classifier": cls, "detail": {"call": k, "sequential": a, "concurrent": b, "actor": who}})
     # coverage measures
     iv = common.top_intervals(conc.log)
@@ -290,5 +309,5 @@ CHUNK = 250
 ASSUMPTIONS = [
     "object state is constant during the concurrent phase (bodies do not mutate invariant-relevant state), so every verdict is a function of its ticket",
     "only schedules a conforming asyncio loop can produce (FIFO ready queue, interleaving only through awaits); thread switches only at hand-overs or icontract source lines",
-    "context mode 'copied while the parent is inside a contract check' is not generated (outside the property's quantifier)",
+    "context mode 'copied while the parent is evaluating a condition' is not generated; 'copied inside the body of a checked function' is; 'copied inside the body of a method of the object called later' is generated and is the open finding D21",
 ]
